@@ -636,6 +636,27 @@ func runC06(ctx *core.Ctx) {
 			ctx.Unknown("L9", "lockedfile.OpenFile#flag-passed", OpenFile.Pos(), "OpenFile does not call openFile")
 		}
 	}
+	// ---- L10: no way round the lock inside the package
+	ctx.Rule("L10", "no content access beside the lock: in package lockedfile a path is opened, read or written through the operating system only by openFile (a 'this file cannot change anyway' fast path in Read reads while a writer holds the lock)", 0)
+	{
+		n := 0
+		for _, f := range p.ModFuncs() {
+			top := f
+			for top.Parent() != nil {
+				top = top.Parent()
+			}
+			if top.Pkg != p.Pkg("lockedfile") || top == of {
+				continue
+			}
+			for _, c := range graph(p, f).Calls("os.ReadFile", "os.WriteFile", "os.Open", "os.Create", "os.OpenFile", "os.Truncate") {
+				n++
+				ctx.Bad("L10", shortFn(f)+"#unlocked-access"+itoa(n), c.Pos(), "%s on a path outside openFile: the contents are touched without the lock", ssax.CalleeName(&c.Call))
+			}
+		}
+		if n == 0 {
+			ctx.OK("L10", "lockedfile#only-openFile-opens", of.Pos(), "openFile is the only function of the package that opens, reads or writes a path directly")
+		}
+	}
 	if ml := ctx.Need("L6", "lockedfile", "(*Mutex).Lock"); ml != nil {
 		mg := graph(p, ml)
 		okc := false
